@@ -29,34 +29,36 @@ import (
 )
 
 type c18Prog struct {
-	Entry   c08Prog `json:"entry"`
-	WKey    int     `json:"wkey"`              // writer's link key
-	RKey    int     `json:"rkey"`              // other reader's link key (made different from wkey)
-	Appends []int   `json:"appends"`           // pointer counts of a small log built with the writer key
-	Reopen  int     `json:"reopen"`            // loader used to reopen the log before appending again (index, mod 4)
-	KeyBuf  int     `json:"keyBuf,omitempty"`  // how the writer's codec got its key: 0 as usual; 1 from a buffer the caller wipes afterwards; 2 from a buffer into which the caller then loads the other reader's key
-	KeyKind int     `json:"keyKind,omitempty"` // 0: the library's secretbox keys; 1: shared keys of another make (AES-GCM, 12-byte nonces) behind the same enc.SharedKey interface
-	Wrapped bool    `json:"wrapped,omitempty"` // the writer's codec is used through a struct that embeds it (a delegating wrapper)
-	OneOpts bool    `json:"oneOpts,omitempty"` // the caller configures all three codecs (writer, other key, no key) through ONE cbor.Options value, changing its key field between the ApplyOptions calls
-	Derive  bool    `json:"derive,omitempty"`  // the readers' codecs (no key / other key) are derived from the writer's codec object with ApplyOptions instead of being built from scratch
-	Opts    int     `json:"opts"`              // CreateEntryOptions of a second write of the entry: bit 0 Pin, bit 1 PreSigned
+	Entry    c08Prog `json:"entry"`
+	WKey     int     `json:"wkey"`               // writer's link key
+	RKey     int     `json:"rkey"`               // other reader's link key (made different from wkey)
+	Appends  []int   `json:"appends"`            // pointer counts of a small log built with the writer key
+	Reopen   int     `json:"reopen"`             // loader used to reopen the log before appending again (index, mod 4)
+	KeyBuf   int     `json:"keyBuf,omitempty"`   // how the writer's codec got its key: 0 as usual; 1 from a buffer the caller wipes afterwards; 2 from a buffer into which the caller then loads the other reader's key
+	KeyKind  int     `json:"keyKind,omitempty"`  // 0: the library's secretbox keys; 1: shared keys of another make (AES-GCM, 12-byte nonces) behind the same enc.SharedKey interface
+	Wrapped  bool    `json:"wrapped,omitempty"`  // the writer's codec is used through a struct that embeds it (a delegating wrapper)
+	OneFetch bool    `json:"oneFetch,omitempty"` // the caller keeps ONE FetchOptions value for every load it makes, whichever reader's codec the load is for
+	OneOpts  bool    `json:"oneOpts,omitempty"`  // the caller configures all three codecs (writer, other key, no key) through ONE cbor.Options value, changing its key field between the ApplyOptions calls
+	Derive   bool    `json:"derive,omitempty"`   // the readers' codecs (no key / other key) are derived from the writer's codec object with ApplyOptions instead of being built from scratch
+	Opts     int     `json:"opts"`               // CreateEntryOptions of a second write of the entry: bit 0 Pin, bit 1 PreSigned
 }
 
 func genC18(t *rapid.T) c18Prog {
 	e := genC08(t)
 	e.Codec = 1
 	return c18Prog{
-		Entry:   e,
-		WKey:    rapid.IntRange(0, 5).Draw(t, "wkey"),
-		RKey:    rapid.IntRange(0, 5).Draw(t, "rkey"),
-		Appends: rapid.SliceOfN(rapid.SampledFrom([]int{0, 1, 2, 4, 8, 16}), 1, 8).Draw(t, "appends"),
-		Reopen:  rapid.IntRange(0, 3).Draw(t, "reopen"),
-		Opts:    rapid.IntRange(0, 3).Draw(t, "opts"),
-		KeyBuf:  rapid.SampledFrom([]int{0, 0, 1, 2}).Draw(t, "keyBuf"),
-		Derive:  rapid.IntRange(0, 2).Draw(t, "deriveReaders") == 0,
-		Wrapped: rapid.IntRange(0, 3).Draw(t, "wrappedCodec") == 0,
-		KeyKind: rapid.SampledFrom([]int{0, 0, 0, 1}).Draw(t, "keyKind"),
-		OneOpts: rapid.IntRange(0, 3).Draw(t, "oneOptionsValue") == 0,
+		Entry:    e,
+		WKey:     rapid.IntRange(0, 5).Draw(t, "wkey"),
+		RKey:     rapid.IntRange(0, 5).Draw(t, "rkey"),
+		Appends:  rapid.SliceOfN(rapid.SampledFrom([]int{0, 1, 2, 4, 8, 16}), 1, 8).Draw(t, "appends"),
+		Reopen:   rapid.IntRange(0, 3).Draw(t, "reopen"),
+		Opts:     rapid.IntRange(0, 3).Draw(t, "opts"),
+		KeyBuf:   rapid.SampledFrom([]int{0, 0, 1, 2}).Draw(t, "keyBuf"),
+		Derive:   rapid.IntRange(0, 2).Draw(t, "deriveReaders") == 0,
+		Wrapped:  rapid.IntRange(0, 3).Draw(t, "wrappedCodec") == 0,
+		KeyKind:  rapid.SampledFrom([]int{0, 0, 0, 1}).Draw(t, "keyKind"),
+		OneOpts:  rapid.IntRange(0, 3).Draw(t, "oneOptionsValue") == 0,
+		OneFetch: rapid.IntRange(0, 2).Draw(t, "oneFetchOptionsValue") == 0,
 	}
 }
 
@@ -189,6 +191,20 @@ type delegatingIO struct{ *cbor.IOCbor }
 // C18 — with a link key, stored blocks never reveal the log's structure.
 func runC18(tb ev.TB, p c18Prog) ev.Result {
 	ctx := context.Background()
+	sharedFetch := &iface.FetchOptions{}
+	fo := func() *iface.FetchOptions {
+		if p.OneFetch {
+			return sharedFetch // what a load leaves in it is the next load's input
+		}
+		return &iface.FetchOptions{}
+	}
+	sharedFetchL := &ipfslog.FetchOptions{}
+	fol := func() *ipfslog.FetchOptions { // (the manifest and entry-hash loaders have an options type of their own)
+		if p.OneFetch {
+			return sharedFetchL
+		}
+		return &ipfslog.FetchOptions{}
+	}
 	wk := p.WKey
 	rk := p.RKey
 	if rk == wk {
@@ -387,7 +403,7 @@ func runC18(tb ev.TB, p c18Prog) ev.Result {
 	if rl.Len() != len(p.Appends) {
 		tb.Fatalf("same-key replica merged %d of %d entries", rl.Len(), len(p.Appends))
 	}
-	ll, err := ipfslog.NewFromEntryHash(ctx, ls.API(), world.Identity(0), last, &ipfslog.LogOptions{ID: "L", IO: same}, &ipfslog.FetchOptions{})
+	ll, err := ipfslog.NewFromEntryHash(ctx, ls.API(), world.Identity(0), last, &ipfslog.LogOptions{ID: "L", IO: same}, fol())
 	if err != nil {
 		tb.Fatalf("same-key load failed: %v", err)
 	}
@@ -417,13 +433,13 @@ func runC18(tb ev.TB, p c18Prog) ev.Result {
 		var rerr error
 		switch loader {
 		case "manifest":
-			re, rerr = ipfslog.NewFromMultihash(ctx, ls.API(), world.Identity(3), manifest, lo, &ipfslog.FetchOptions{})
+			re, rerr = ipfslog.NewFromMultihash(ctx, ls.API(), world.Identity(3), manifest, lo, fol())
 		case "json":
-			re, rerr = ipfslog.NewFromJSON(ctx, ls.API(), world.Identity(3), wl.ToJSONLog(), lo, &iface.FetchOptions{})
+			re, rerr = ipfslog.NewFromJSON(ctx, ls.API(), world.Identity(3), wl.ToJSONLog(), lo, fo())
 		case "entries":
-			re, rerr = ipfslog.NewFromEntry(ctx, ls.API(), world.Identity(3), heads, lo, &iface.FetchOptions{})
+			re, rerr = ipfslog.NewFromEntry(ctx, ls.API(), world.Identity(3), heads, lo, fo())
 		case "hash":
-			re, rerr = ipfslog.NewFromEntryHash(ctx, ls.API(), world.Identity(3), last, lo, &ipfslog.FetchOptions{})
+			re, rerr = ipfslog.NewFromEntryHash(ctx, ls.API(), world.Identity(3), last, lo, fol())
 		}
 		if rerr != nil {
 			tb.Fatalf("reopening the log with the key via %s failed: %v", loader, rerr)
@@ -446,8 +462,32 @@ func runC18(tb ev.TB, p c18Prog) ev.Result {
 			tb.Fatalf("entries appended after reopening via %s do not merge into a same-key replica: %v", loader, err)
 		}
 	}
+	// the published head list, loaded by a same-key reader and then by the other readers
+	if jl, err := ipfslog.NewFromJSON(ctx, ls.API(), world.Identity(0), wl.ToJSONLog(), &ipfslog.LogOptions{ID: "L", IO: same}, fo()); err != nil || jl.Len() != len(p.Appends) {
+		n := -1
+		if jl != nil {
+			n = jl.Len()
+		}
+		tb.Fatalf("same-key load from the published head list: %d of %d entries, error %v", n, len(p.Appends), err)
+	}
+	for _, name := range []string{"no key", "different key"} {
+		io := map[string]ipfslogIO{"no key": noio, "different key": otherio}[name]
+		if jl, err := ipfslog.NewFromJSON(ctx, ls.API(), world.Identity(0), wl.ToJSONLog(), &ipfslog.LogOptions{ID: "L", IO: io}, fo()); err == nil {
+			if jl.Len() > 1 {
+				tb.Fatalf("load from the published head list with %s followed links: got %d entries", name, jl.Len())
+			}
+			for _, x := range jl.GetEntries().Slice() {
+				if len(x.GetNext())+len(x.GetRefs()) > 0 {
+					tb.Fatalf("load from the published head list with %s obtained links", name)
+				}
+			}
+		}
+	}
+	if jl, err := ipfslog.NewFromJSON(ctx, ls.API(), world.Identity(0), wl.ToJSONLog(), &ipfslog.LogOptions{ID: "L", IO: same}, fo()); err != nil || jl.Len() != len(p.Appends) {
+		tb.Fatalf("same-key load from the published head list after the other readers' loads failed or is incomplete: %v", err)
+	}
 	for name, io := range map[string]ipfslogIO{"no key": noio, "different key": otherio} {
-		lo, err := ipfslog.NewFromEntryHash(ctx, ls.API(), world.Identity(0), last, &ipfslog.LogOptions{ID: "L", IO: io}, &ipfslog.FetchOptions{})
+		lo, err := ipfslog.NewFromEntryHash(ctx, ls.API(), world.Identity(0), last, &ipfslog.LogOptions{ID: "L", IO: io}, fol())
 		if err != nil {
 			continue
 		}
